@@ -23,8 +23,23 @@ def leaf(name, src, out_ids=("success",), fail_tag=None):
     return Program(steps, outs, ITEM, name=name)
 
 
-def loop_over(name, sub, nitems=2, par=1):
+def spelled(rng, name):
+    """Another valid way of writing the same path relative to the context directory."""
+    k = rng.random()
+    if k < 0.65:
+        return None
+    if k < 0.8:
+        return "./" + name
+    if k < 0.9:
+        return "zz/../" + name
+    d, _, base = name.rpartition("/")
+    return (d + "/./" + base) if d else "./" + "./" + name
+
+
+def loop_over(name, sub, nitems=2, par=1, rng=None):
     fe = Step("loop", "foreach", sub=sub, items=[{"tag": Expr(In("tag"))}] + [{"tag": "k%d" % i} for i in range(nitems - 1)], parallelism=par)
+    if rng is not None:
+        fe.subfile = spelled(rng, sub.name)
     return Program([fe], {"success": {"d": Expr(Ref("loop", "outputs", "success", "data"))}}, ITEM, name=name)
 
 
@@ -41,8 +56,9 @@ def tree(rng, i):
         l = leaf(subdir + "leaf.yaml", "leaf_w")
         sub = l
         for d in range(depth - 1):
-            sub = loop_over("%slevel%d.yaml" % (subdir, d), sub, nitems=rng.choice([1, 2]))
+            sub = loop_over("%slevel%d.yaml" % (subdir, d), sub, nitems=rng.choice([1, 2]), rng=rng)
         fe = Step("loop", "foreach", sub=sub, items=[{"tag": gen.tagref("a")}, {"tag": Expr(In("tag"))}], parallelism=rng.choice([1, 2]))
+        fe.subfile = spelled(rng, sub.name)
         steps.append(fe)
         outs["success"]["d"] = Expr(Ref("loop", "outputs", "success", "data"))
         if rng.random() < 0.5:
@@ -50,6 +66,7 @@ def tree(rng, i):
             # which is then referenced from two *different* files (root and an intermediate level)
             shared = sub if rng.random() < 0.5 else l
             fe2 = Step("loop2", "foreach", sub=shared, items=[{"tag": "second"}])
+            fe2.subfile = spelled(rng, shared.name)
             steps.append(fe2)
             outs["success"]["d2"] = Expr(Ref("loop2", "outputs", "success", "data"))
     output_schema = None
